@@ -4,7 +4,7 @@ tier="$1"; shift
 cd "$(dirname "$0")/.." || exit 2
 rc_all=0
 for seed in "$@"; do
-  for c in C01 C02 C03 C04 C05 C06 C07 C08 C09 C10 C11 C12 C13 C14 C15 C16 C17 C18 C19 C20; do
+  for c in ${SWEEP_CHECKS:-C01 C02 C03 C04 C05 C06 C07 C08 C09 C10 C11 C12 C13 C14 C15 C16 C17 C18 C19 C20}; do
     out=$(VERIF_SEED=$seed ./check $c $tier 2>&1); rc=$?
     line=$(echo "$out" | grep "^\[$c" | tail -1)
     echo "rc=$rc $line"
